@@ -48,15 +48,15 @@ theorem zipC_congr (f g : Ty → Val → Comp) : ∀ (ts : List Ty), (∀ t ∈ 
       | error e => rfl
       | ok v => simp only; rw [zipC_congr f g ts (fun u hu => h u (List.mem_cons_of_mem _ hu)) xs s1]
 
-theorem fieldsFF_congr (f g : Ty → Val → Comp) (ro : ROpts) (ci : Bool) (ks : List String) (xs : List Val) :
+theorem fieldsFF_congr (f g : Ty → Val → Comp) (ro : ROpts) (ks : List String) (xs : List Val) :
     ∀ (fields : List Field), (∀ fl ∈ fields, f fl.ty = g fl.ty) →
-    ∀ s, fieldsFF f ro ci ks xs fields s = fieldsFF g ro ci ks xs fields s
+    ∀ s, fieldsFF f ro ks xs fields s = fieldsFF g ro ks xs fields s
   | [], _, s => by simp [fieldsFF]
   | fl :: fls, h, s => by
-    have ih := fieldsFF_congr f g ro ci ks xs fls (fun u hu => h u (List.mem_cons_of_mem _ hu))
+    have ih := fieldsFF_congr f g ro ks xs fls (fun u hu => h u (List.mem_cons_of_mem _ hu))
     simp only [fieldsFF]
     rw [h fl (by simp)]
-    cases lookupF ci fl ks xs with
+    cases lookupF fl ks xs with
     | some v =>
       simp only
       cases g fl.ty v s with
@@ -77,15 +77,15 @@ theorem fieldsFF_congr (f g : Ty → Val → Comp) (ro : ROpts) (ci : Bool) (ks 
 theorem find?_mem' {α : Type _} {p : α → Bool} {l : List α} {a : α} (h : l.find? p = some a) : a ∈ l :=
   List.mem_of_find?_eq_some h
 
-theorem dataLoop_congr (f g : Ty → Val → Comp) (ci : Bool) (fields : List Field)
+theorem dataLoop_congr (f g : Ty → Val → Comp) (fields : List Field)
     (h : ∀ fl ∈ fields, f fl.ty = g fl.ty) :
-    ∀ (ks : List String) (xs : List Val) s, dataLoop f ci fields ks xs s = dataLoop g ci fields ks xs s
+    ∀ (ks : List String) (xs : List Val) s, dataLoop f fields ks xs s = dataLoop g fields ks xs s
   | [], xs, s => by cases xs <;> simp [dataLoop]
   | k :: ks, [], s => by simp [dataLoop]
   | k :: ks, x :: xs, s => by
-    have ih := dataLoop_congr f g ci fields h ks xs
+    have ih := dataLoop_congr f g fields h ks xs
     simp only [dataLoop]
-    cases hf : fields.find? (fun fl => keyMatches ci fl k) with
+    cases hf : fields.find? (fun fl => keyMatches fl k) with
     | none => simp only; exact ih s
     | some fl =>
       simp only
@@ -101,8 +101,8 @@ theorem parseData_congr (f g : Ty → Val → Comp) (ro : ROpts) (d : Decl)
     parseData f ro d ks xs s = parseData g ro d ks xs s := by
   simp only [parseData]
   split
-  · rw [dataLoop_congr f g d.ci d.fields h ks xs s]
-  · exact fieldsFF_congr f g ro d.ci ks xs d.fields h s
+  · rw [dataLoop_congr f g d.fields h ks xs s]
+  · exact fieldsFF_congr f g ro ks xs d.fields h s
 
 theorem closed_lookup {E : Env} (hE : E.closed = true) {k : Nat} {d : Decl} (h : E[k]? = some d) :
     d.scoped E.length = true := by
